@@ -16,10 +16,12 @@ Notation run := (run n kind max_attempts qmax with_web).
 Notation ctl_step := (ctl_step n kind max_attempts with_web).
 Notation bg_step := (bg_step kind).
 
-(* the control thread is executing the shutdown command it took from the queue *)
+(* the control thread is executing the shutdown command it took from the queue ... *)
 Definition shutAD (c : cpc) : bool :=
   match c with
   | CShut0 KAfterDrain | CShut1 KAfterDrain | CShut2 KAfterDrain | CShut3 KAfterDrain | CShut4 KAfterDrain => true
+  (* ... or, an interrupt having cut that short, the shutdown of its finally clause *)
+  | CShut0 KFinally | CShut1 KFinally | CShut2 KFinally | CShut3 KFinally | CShut4 KFinally => true
   | _ => false
   end.
 
